@@ -24,6 +24,7 @@ import (
 	"os"
 	"path/filepath"
 	"reflect"
+	"regexp"
 	"sort"
 	"strconv"
 	"strings"
@@ -430,8 +431,28 @@ func runWorkload(w *snapWorkload) (stages []string) {
 	})
 	step("replicate", func(e *gobl.Envelope) error { _, err := e.Replicate(); return err })
 	step("sign", func(e *gobl.Envelope) error { return e.Sign(c14key) })
+	// decode edited JSON INTO the calculated document object: encoding/json keeps the pointers that are
+	// already there, so a calculated field that still points into a shared definition (a rate table value,
+	// an extension map) is written through
+	step("reuse", func(e *gobl.Envelope) error {
+		doc := e.Extract()
+		if doc == nil {
+			return nil
+		}
+		b, err := json.Marshal(doc)
+		if err != nil {
+			return nil
+		}
+		b = c15PctRe.ReplaceAll(b, []byte(`"$1":"77.7%"`))
+		b = c15ExtRe.ReplaceAll(b, []byte(`"ext":{"zz-reuse":"x",`))
+		_ = json.Unmarshal(b, doc)
+		return nil
+	})
 	return stages
 }
+
+var c15PctRe = regexp.MustCompile(`"(percent|surcharge)":"[^"]*"`)
+var c15ExtRe = regexp.MustCompile(`"ext":\{`)
 
 func syntheticInvoice(regime *tax.RegimeDef, addons []string) []byte {
 	cc := regime.Country.String()
